@@ -139,6 +139,7 @@ CONFIGS = {
     "two-predicate-classes": dict(args=[0], handlers=[{0: _t("g0", GEN)}, {0: _t("h0", GEN2)}], slf=False, next="next"),
     "shared-type": dict(args=[0, 1], handlers=[{0: _t("g0", GEN), 1: _t("g1", GEN)}, {0: _t("g0", GEN), 1: _t("g2", GEN)}], slf=False, next="next"),
     "keyword-position": dict(args=[0, "kw"], handlers=[{0: S, "kw": _t("g0", GEN)}, {0: S, "kw": _t("g1", GEN)}, {0: S, "kw": _t("g2", GEN)}], slf=True, next="next"),
+    "conditions-answer-truthy-values": dict(args=[0], handlers=[{0: _t("g0", GEN)}, {0: _t("g1", GEN)}, {0: _t("g2", GEN)}], slf=False, next="next", truthy=True),
     "static-member-of-the-rank": dict(args=[0, 1], handlers=[{0: _t("g0", GEN), 1: S}, {0: S, 1: _t("S2", STATIC)}], slf=False, next="next"),
     "declared-position-not-supplied": dict(args=[0], handlers=[{0: _t("g0", GEN), 1: _t("g9", GEN)}, {0: _t("g1", GEN)}], slf=False, next="next"),
     "three-constants-one-name": dict(args=[0], handlers=[{0: _t("g0", GEN)}, {0: _t("g1", GEN)}, {0: _t("g2", GEN)}, {0: _t("g3", GEN)}], slf=False, next="next"),
@@ -346,6 +347,9 @@ class Generated:
                     expected_args = {argname_of(k) for _, tys in self.handlers for k in cfg["args"] if tys[k] is t}
                     if x.arg not in expected_args:
                         misuse.append(f"the check of {t!r} (declared at {sorted(expected_args)}) is applied to argument {x.arg}")
+                    if cfg.get("truthy"):
+                        # a user condition may answer any truthy / falsy value
+                        return 2 if t.holds(x) else 0
                     return t.holds(x)
 
                 return HostFn(chk)
